@@ -388,7 +388,7 @@ Qed.
    [first; 1; last]  is not (level -1) and  [first; 0; last]  is.
    Each stop has penalty 10; the objective is travel duration + unplanned. *)
 Definition w_opts : options :=
-  mkOptions false false false false false false false false false false false 0%Z 1%Z 0%Z 1%Z false 0%Z 0%Z 0%Z 0%Z false.
+  mkOptions false false false false false false false false false false false 0%Z 1%Z 0%Z 1%Z false 0%Z 0%Z 0%Z 0%Z false [].
 Definition w_mat : list (list Z) := [[0;1;1;1];[1;0;1;1];[1;1;0;1];[1;1;1;0]]%Z.
 Definition w_inp : input :=
   mkInput [] [mkIStop [(-1)%Z] 0%Z [] None 10%Z [] None 0%Z 0%Z; mkIStop [1%Z] 0%Z [] None 10%Z [] None 0%Z 0%Z]
